@@ -160,7 +160,10 @@ func getUniverse() *universe {
 		leaf("L1", 1, nil)
 		leaf("L2", 3, nil)
 		leaf("L4", -1, nil)
-		leaf("L5", 0, func(t *x509.Certificate) { t.NotBefore = now.Add(-48 * time.Hour); t.NotAfter = now.Add(-24 * time.Hour) })
+		leaf("L5", 0, func(t *x509.Certificate) {
+			t.NotBefore = now.Add(-48 * time.Hour)
+			t.NotAfter = now.Add(-24 * time.Hour)
+		})
 		leaf("L6", 1, func(t *x509.Certificate) { t.ExtKeyUsage = []x509.ExtKeyUsage{x509.ExtKeyUsageServerAuth} })
 		leaf("L7", 2, func(t *x509.Certificate) { t.ExtKeyUsage = nil })
 		u.chains["c0"] = []*x509.Certificate{u.leaves["L0"]}
@@ -246,9 +249,9 @@ func (k *fakeKey) Sign(r io.Reader, digest []byte, opts crypto.SignerOpts) ([]by
 func (k *fakeKey) SignContext(ctx context.Context, digest []byte, opts crypto.SignerOpts) ([]byte, error) {
 	return k.Sign(nil, digest, opts)
 }
-func (k *fakeKey) Config() *config.KeyConfig               { return k.kc }
-func (k *fakeKey) Certificate() []byte                     { return getUniverse().sigCert }
-func (k *fakeKey) GetID() []byte                           { return []byte(k.name) }
+func (k *fakeKey) Config() *config.KeyConfig                 { return k.kc }
+func (k *fakeKey) Certificate() []byte                       { return getUniverse().sigCert }
+func (k *fakeKey) GetID() []byte                             { return []byte(k.name) }
 func (k *fakeKey) ImportCertificate(*x509.Certificate) error { return errors.New("not implemented") }
 
 func init() {
@@ -281,6 +284,7 @@ type cfgSpec struct {
 	proxies   []string
 	proxiesOK bool
 	inNets    []string // pool addresses inside the trusted nets (ground truth by construction)
+	policyURL string   // server.policyurl (policy.go; not part of the configuration string)
 }
 
 func dash(s string) string {
@@ -428,7 +432,7 @@ func buildServer(spec *cfgSpec) *built {
 		Tokens:  map[string]*config.TokenConfig{},
 		Keys:    map[string]*config.KeyConfig{},
 		Clients: map[string]*config.ClientConfig{},
-		Server:  &config.ServerConfig{TokenCacheSeconds: -1, TrustedProxies: spec.proxies},
+		Server:  &config.ServerConfig{TokenCacheSeconds: -1, TrustedProxies: spec.proxies, PolicyURL: spec.policyURL},
 	}
 	for _, t := range spec.tokens {
 		cfg.Tokens[t] = &config.TokenConfig{Type: "veriffake-c04"}
@@ -514,6 +518,12 @@ func parseReq(f []string) *reqSpec {
 }
 
 func (b *built) fire(r *reqSpec) string {
+	s, _ := b.fireWith(r, nil)
+	return s
+}
+
+// fireWith: mod (if any) amends the request just before it is served (policy.go: Authorization header, deadline)
+func (b *built) fireWith(r *reqSpec, mod func(*http.Request) *http.Request) (string, *httptest.ResponseRecorder) {
 	u := getUniverse()
 	var method, target string
 	var body io.Reader
@@ -576,6 +586,9 @@ func (b *built) fire(r *reqSpec) string {
 	evMu.Unlock()
 	b.logbuf.Reset()
 	_ = os.Truncate(b.audit, 0)
+	if mod != nil {
+		req = mod(req)
+	}
 	rec := httptest.NewRecorder()
 	b.handler.ServeHTTP(rec, req)
 	// access log
@@ -608,7 +621,7 @@ func (b *built) fire(r *reqSpec) string {
 		if strings.Contains(logErr, "nil pointer") {
 			site = "nil-deref"
 		}
-		return fmt.Sprintf("panic %s ip=%s", site, hexStr(ip))
+		return fmt.Sprintf("panic %s ip=%s", site, hexStr(ip)), rec
 	}
 	problem := "-"
 	keys := "-"
@@ -651,7 +664,7 @@ func (b *built) fire(r *reqSpec) string {
 	} else if r.ep == "sign" && rec.Code == 200 {
 		aud = " audit-missing"
 	}
-	return fmt.Sprintf("ok %d %s ip=%s user=%s keys=%s ev=%s%s", rec.Code, problem, hexStr(ip), dash(user), keys, ev, aud)
+	return fmt.Sprintf("ok %d %s ip=%s user=%s keys=%s ev=%s%s", rec.Code, problem, hexStr(ip), dash(user), keys, ev, aud), rec
 }
 
 // Impl: `req <cfg> <endpoint> <key> <file> <sig> ra=.. tls=.. xff=.. ssl=..`
@@ -664,6 +677,9 @@ func Impl() {
 		}
 	}()
 	hx.EachLine(func(f []string) string {
+		if len(f) >= 6 && f[0] == "preq" {
+			return implPolicy(f, &cur, &curCfg)
+		}
 		if len(f) < 6 || f[0] != "req" {
 			return "bad-op"
 		}
@@ -1084,4 +1100,6 @@ func Gen(w *bufio.Writer, seed uint64, tier string) {
 			}
 		}
 	}
+	// policy (OPA / bearer token) mode: its own stream, so that the certificate-mode ops above do not depend on it
+	genPolicy(w, hx.NewRng(hx.NewRng(seed^0x0fa0fa).U64()), tier)
 }
